@@ -39,6 +39,7 @@ func runC02(c *Ctx) {
 	c02SplitIndex(c)
 	c06Lines(c, "C02-R10")
 	c02WholeLines(c)
+	c10ReadConsumes(c, "C02-R10")
 	c02DerivedFromContent(c)
 	c02Recursion(c)
 	c02AlwaysEnabledFirst(c)
